@@ -1,13 +1,18 @@
 import H2T.Lemmas.FitsTable
+import H2T.Lemmas.ShrinkFloor
 
 /-! # C06 — table cells stay in their columns; columns with text get space
 
 The part of the property that is pure arithmetic is the column allocation of `render_table_tree`: the
 initial proportional widths are reduced one column at a time until the row fits.  Status: **partial** — the
 shrink loop is proved (terminates, never takes a column below zero, keeps the number of columns, exits with
-`Σ widths + separators ≤ width`); that a column with text keeps a positive width is *refuted* for the
-unchanged code in two situations, both recorded as known findings with witnesses replayed on every run
-(a cell's estimate divided over its colspan rounds to zero; `min_wrap_width(0)` makes every minimum zero). -/
+`Σ widths + separators ≤ width`); **columns with text get space** (`columns_keep_their_minimum`,
+`column_with_text_gets_space`): side by side every column ends at least as wide as the smaller of its content size and its
+minimum width, so a column that holds text and has a positive minimum width is never allocated zero width — the loop only
+ever shrinks a column of maximal slack, and while the row does not fit some column is above its minimum.  With a *zero*
+minimum the statement is refuted for the unchanged code, in exactly the two situations recorded as known findings with
+witnesses replayed on every run (a cell's estimate divided over its colspan rounds to zero; `min_wrap_width(0)` makes
+every minimum zero). -/
 
 namespace H2T.C06
 
@@ -50,6 +55,22 @@ theorem row_cells_fit (wm : SubR → Cfg → Nat → Nat → Except Err Nat) (cf
     (h : runCells wm cfg d ws false ann links cells = .ok (l2, subs)) :
     (subs.map fun c => c.width + 1).sum ≤ (ws.drop next).sum + (ws.length - next) :=
   (runCells_fitsT wm cfg d hwm hov cells ws false ann links next l2 subs hwf h).2.2 rfl
+
+/-- **side by side, no column is taken below its minimum**: every column ends at least as wide as the smaller of its
+    content size and its minimum width -/
+theorem columns_keep_their_minimum (cfg : Cfg) (width : Nat) (cols : List SizeEst) (ws : List Nat) (tw : Nat)
+    (h : allocCols cfg width cols = .ok (ws, false, tw)) :
+    ws.length = cols.length ∧ ∀ j, j < cols.length → (cols.getD j {}).size ≠ 0 →
+      min (cols.getD j {}).size (cols.getD j {}).minW ≤ ws.getD j 0 :=
+  allocCols_floor cfg width cols ws tw h
+
+/-- **a column that holds text is never allocated zero width** (when its minimum width is positive, as it is for any
+    column with a cell of its own under a positive `min_wrap_width`) -/
+theorem column_with_text_gets_space (cfg : Cfg) (width : Nat) (cols : List SizeEst) (ws : List Nat) (tw : Nat) (j : Nat)
+    (h : allocCols cfg width cols = .ok (ws, false, tw)) (hj : j < cols.length) (hs : 0 < (cols.getD j {}).size)
+    (hm : 0 < (cols.getD j {}).minW) : 0 < ws.getD j 0 := by
+  have := (allocCols_floor cfg width cols ws tw h).2 j hj (by omega)
+  omega
 
 /-! non-vacuity: three columns of 10 at width 12 are taken down to 3+3+4 (+2 separators = 12) -/
 example : (shrinkLoop 12 [{ minW := 1 }, { minW := 1 }, { minW := 1 }] 40 [10, 10, 10]).toOption = some [3, 3, 4] := by decide
